@@ -337,7 +337,9 @@ Proof.
     destruct (c1 =? 47).
     + destruct (letters_loop (mv z 2)) as [z2| |]; cbn [rbind] in Hx; try discriminate.
       destruct (hash_lexeme_from z2 (mark z + 2)) as [h| |]; cbn [rbind] in Hx; try discriminate.
-      destruct (h =? raw); injection Hx as <-; reflexivity.
+      destruct (h =? raw); [|injection Hx as <-; reflexivity].
+      destruct (pkr z2 0) as [cz| |]; cbn [rbind] in Hx; try discriminate.
+      destruct (is_tagend cz || eof0 z2 cz); injection Hx as <-; reflexivity.
     + destruct (if (raw =? html_hash_Script) && (c1 =? 33)
                 then c2 <-- pkr z 2;; (if c2 =? 45 then c3 <-- pkr z 3;; Ok (c3 =? 45) else Ok false)
                 else Ok false) as [sc| |]; cbn [rbind] in Hx; try discriminate.
